@@ -28,6 +28,8 @@ func main() {
 		showMain(os.Args[2:])
 	case "diag":
 		diagMain(os.Args[2:])
+	case "layout":
+		layoutMain(os.Args[2:])
 	case "corridors":
 		corridorsMain(os.Args[2:])
 	default:
